@@ -51,6 +51,8 @@ struct Snap {
     long nlog[4] = {0, 0, 0, 0};
     bool deferred = false, fast = false, bu[3] = {false, false, false}, needs_gc = false;
     int genus = 0;
+    long nhe = 0, nhf = 0, nlog_he = 0, nlog_hf = 0;
+    int half_del_mismatch = -1;   // first half-entity whose is_deleted differs from its parent's (-1: none)
 };
 template <class M> Snap take_snap(const M &m) {
     Snap s;
@@ -75,6 +77,11 @@ template <class M> Snap take_snap(const M &m) {
         s.C.push_back(h);
         s.del[BC].push_back(m.is_deleted(CellHandle(i)));
     }
+    s.nhe = (long)m.n_halfedges(); s.nhf = (long)m.n_halffaces(); s.nlog_he = (long)m.n_logical_halfedges(); s.nlog_hf = (long)m.n_logical_halffaces();
+    for (int i = 0; i < s.n[BE] && s.half_del_mismatch < 0; ++i) for (int side = 0; side < 2; ++side)
+        if (m.is_deleted(HalfEdgeHandle(2 * i + side)) != (bool)s.del[BE][i]) s.half_del_mismatch = 2 * i + side;
+    for (int i = 0; i < s.n[BF] && s.half_del_mismatch < 0; ++i) for (int side = 0; side < 2; ++side)
+        if (m.is_deleted(HalfFaceHandle(2 * i + side)) != (bool)s.del[BF][i]) s.half_del_mismatch = 1000000 + 2 * i + side;
     s.deferred = m.deferred_deletion_enabled(); s.fast = m.fast_deletion_enabled();
     s.bu[0] = m.has_vertex_bottom_up_incidences(); s.bu[1] = m.has_edge_bottom_up_incidences(); s.bu[2] = m.has_face_bottom_up_incidences();
     s.needs_gc = m.needs_garbage_collection();
